@@ -20,6 +20,9 @@ def run(ctx):
         I("fixedu", 3, "TC4", st="uint8_t", L=3, reloc=r, opts=few),
         I("small", 2, "NTR", alloc="ledgerstd", L=3, reloc=r, opts=few),   # must NOT claim (static part)
         I("fixed", 2, "PTN", st="uint8_t", L=2, reloc=r, opts=few),        # must NOT claim
+        I("small", 1, "NTR", alloc="ledgerstd", L=3, reloc=r, opts=few),   # must NOT claim (element lives in the pointer slot)
+        I("fixed", 1, "NTR", st="uint8_t", L=1, reloc=r, opts=few),        # must NOT claim
+        I("small", 1, "TC12", st="uint16_t", alloc="std", L=3, reloc=r, opts=few),  # claims (12-byte element in the pointer slot)
     ]
     if not q:
         vm += [I("small", 2, "TC4", K=2, L=3, reloc=r, opts=few + ["--no-ctors"]), I("vector", 0, "TR", alloc="ledgerrealloc", K=2, L=2, reloc=r, opts=few),
@@ -36,6 +39,8 @@ def run(ctx):
         S("smallset", "TC4", "less", back="stdset", N=2, reloc=r, opts=so),      # must NOT claim
         S("flatset", "NTR", "less", "smallvector2", reloc=r, opts=so),           # must NOT claim
         S("flatset", "TC4", "less", "stdvector", reloc=r, opts=so),              # must NOT claim
+        S("flatset", "TC4", "selfptr", "amcvector", reloc=r, opts=so),           # must NOT claim (comparator is not relocatable)
+        S("smallset", "TC4", "selfptr", back="flatset", N=2, reloc=r, opts=so),  # must NOT claim
     ]
     cov2 = e1.explore(ctx, sm, ["C14"], engine="E2", eng=e2.ENG, any_fail_counts=True, only_claiming=True)
     cov = e1.merge_cov(cov, cov2)
